@@ -443,43 +443,161 @@ Proof.
 Qed.
 
 (* ---------- histories ---------- *)
-Lemma step_frozen : forall w c, is_register c = false -> snd (step w c) = w.
+Lemma step_frozen : forall w c, is_plain c = true -> snd (step w c) = w.
 Proof. intros w c H. destruct c; simpl in *; try reflexivity; discriminate. Qed.
 
-Lemma run_registers_only : forall h w, run h w = run (filter is_register h) w.
+(* no call whatsoever changes a registry object of the caller *)
+Lemma step_regs_kept : forall w c i o,
+  nth_error (w_regs w) i = Some o -> nth_error (w_regs (snd (step w c))) i = Some o.
 Proof.
-  induction h as [|c t IH]; intro w; [reflexivity|].
-  unfold run in *. simpl. destruct (is_register c) eqn:E; simpl.
-  - apply IH.
-  - rewrite step_frozen by exact E. apply IH.
+  intros w c i o H. destruct c; simpl; try exact H.
+  rewrite nth_error_app1; [exact H|]. apply nth_error_Some. rewrite H. discriminate.
 Qed.
 
-Lemma run_frozen : forall h w, forallb (fun c => negb (is_register c)) h = true -> run h w = w.
+Lemma step_regs_plain : forall w c, is_new c = false -> w_regs (snd (step w c)) = w_regs w.
+Proof. intros w c H. destruct c; simpl in *; try reflexivity; discriminate. Qed.
+
+Lemma same_tables_refl : forall w, same_tables w w.
+Proof. intro w. unfold same_tables. repeat split. Qed.
+Lemma same_tables_trans : forall a b c, same_tables a b -> same_tables b c -> same_tables a c.
 Proof.
-  intros h w H. rewrite run_registers_only.
-  assert (F : filter is_register h = []).
-  { induction h as [|c t IH]; [reflexivity|]. simpl in *.
-    apply andb_true_iff in H. destruct H as [H1 H2].
-    destruct (is_register c); [discriminate | apply IH; exact H2]. }
-  rewrite F. reflexivity.
+  unfold same_tables. intros a b c H1 H2.
+  destruct H1 as (A1&A2&A3&A4&A5&A6&A7&A8). destruct H2 as (B1&B2&B3&B4&B5&B6&B7&B8).
+  repeat split; congruence.
+Qed.
+
+Lemma step_same_tables : forall w c, is_register c = false -> same_tables w (snd (step w c)).
+Proof.
+  intros w c H. destruct c; simpl in *; try discriminate; try apply same_tables_refl.
+  unfold same_tables. simpl. repeat split.
+Qed.
+
+Definition no_registration (h : list call) : bool := forallb (fun c => negb (is_register c)) h.
+
+Lemma run_cons : forall c t w, run (c :: t) w = run t (snd (step w c)).
+Proof. reflexivity. Qed.
+
+Lemma run_regs_kept : forall h w i o,
+  nth_error (w_regs w) i = Some o -> nth_error (w_regs (run h w)) i = Some o.
+Proof.
+  induction h as [|c t IH]; intros w i o H; [exact H|].
+  rewrite run_cons. apply IH. apply step_regs_kept. exact H.
+Qed.
+
+Lemma run_same_tables : forall h w, no_registration h = true -> same_tables w (run h w).
+Proof.
+  induction h as [|c t IH]; intros w H; [apply same_tables_refl|].
+  simpl in H. apply andb_true_iff in H. destruct H as [H1 H2].
+  rewrite run_cons. eapply same_tables_trans; [|apply IH; exact H2].
+  apply step_same_tables. destruct (is_register c); [discriminate | reflexivity].
+Qed.
+
+(* the verdict of a call is a function of the class tables, the default registries
+   and the registry objects the call refers to *)
+Lemma ext_simple : forall w w', same_tables w w' ->
+  (forall a n, jws_get_alg w' a n = jws_get_alg w a n) /\
+  (forall l a n, jwe_get w' l a n = jwe_get w l a n) /\
+  (forall k a r algs, jws_entry w' k a r algs = jws_entry w k a r algs) /\
+  (forall a r e algs z, jwe_entry w' a r e algs z = jwe_entry w a r e algs z) /\
+  (forall k a r, jws_entry_select w' k a r = jws_entry_select w k a r) /\
+  (forall sel n, jws_member_gate w' sel n = jws_member_gate w sel n) /\
+  w_jws_def w' = w_jws_def w /\ w_jwe_def w' = w_jwe_def w.
+Proof.
+  intros w w' T. destruct w as [g a1 a2 a3 a4 a5 a6 a7 a8]. destruct w' as [g' b1 b2 b3 b4 b5 b6 b7 b8].
+  unfold same_tables in T. simpl in T. destruct T as (E1&E2&E3&E4&E5&E6&E7&E8). subst.
+  split; [reflexivity|]. split; [reflexivity|]. split; [reflexivity|]. split; [reflexivity|].
+  split; [reflexivity|]. split; [reflexivity|]. split; reflexivity.
+Qed.
+
+Lemma verify_op_ext : forall crypto w w' k a r algs, same_tables w w' ->
+  jws_verify_op crypto w' k a r algs = jws_verify_op crypto w k a r algs.
+Proof.
+  intros crypto w w' k a r algs T. destruct (ext_simple w w' T) as (_&_&_&_&S&G&_&_).
+  unfold jws_verify_op. rewrite S.
+  assert (V : forall sel, jws_verify_members crypto w' sel algs = jws_verify_members crypto w sel algs).
+  { intro sel. induction algs as [|n t IH]; simpl; [reflexivity|]. rewrite G, IH. reflexivity. }
+  rewrite V. reflexivity.
+Qed.
+
+Lemma jwt_verdict_ext : forall w w' v a r alg enc zip, same_tables w w' ->
+  jwt_verdict w' v a r alg enc zip = jwt_verdict w v a r alg enc zip.
+Proof.
+  intros w w' v a r alg enc zip T. destruct (ext_simple w w' T) as (_&_&J&E&_&_&_&_).
+  unfold jwt_verdict, jwt_entry. destruct r; destruct v;
+    rewrite ?(verify_op_ext good_sig w w') by exact T; rewrite ?J; try reflexivity;
+    destruct enc; try reflexivity; rewrite E; reflexivity.
+Qed.
+
+Lemma verdict_ext : forall w w' c,
+  same_tables w w' ->
+  (forall i o, nth_error (w_regs w) i = Some o -> nth_error (w_regs w') i = Some o) ->
+  refs_ok w c = true ->
+  fst (step w' c) = fst (step w c).
+Proof.
+  intros w w' c T R K. destruct (ext_simple w w' T) as (GA&GE&J&E&_&_&D1&D2).
+  assert (Q : forall i, Nat.ltb i (length (w_regs w)) = true -> nth_error (w_regs w') i = nth_error (w_regs w) i).
+  { intros i L. apply PeanoNat.Nat.ltb_lt in L. destruct (nth_error (w_regs w) i) as [o|] eqn:Eo.
+    - apply R. exact Eo.
+    - apply nth_error_None in Eo. lia. }
+  assert (RS : forall r, sel_ok w r = true -> resolve w' r = resolve w r).
+  { intros r L. destruct r as [|cc aa|i]; try reflexivity. simpl in *. rewrite (Q _ L). reflexivity. }
+  destruct c; simpl in K; simpl; try reflexivity.
+  - rewrite GA. reflexivity.
+  - rewrite GA, D1. reflexivity.
+  - rewrite GE. reflexivity.
+  - rewrite GE, D2. reflexivity.
+  - rewrite (Q _ K). destruct (nth_error (w_regs w) i) as [o|]; [|reflexivity].
+    destruct g; [rewrite GA | rewrite GE]; reflexivity.
+  - unfold with_reg. rewrite (RS _ K). destruct (resolve w registry); simpl; [rewrite J|]; reflexivity.
+  - unfold with_reg. rewrite (RS _ K). destruct (resolve w registry); simpl; [|reflexivity].
+    rewrite (verify_op_ext good_sig w w') by exact T. reflexivity.
+  - unfold with_reg. rewrite (RS _ K). destruct (resolve w registry); simpl; [rewrite E|]; reflexivity.
+  - unfold with_reg. rewrite (RS _ K). destruct (resolve w registry); simpl; [|reflexivity].
+    rewrite (jwt_verdict_ext w w') by exact T. reflexivity.
 Qed.
 
 Lemma history_independent : forall h c w,
-  forallb (fun c => negb (is_register c)) h = true ->
-  step (run h w) c = step w c.
-Proof. intros h c w H. rewrite run_frozen by exact H. reflexivity. Qed.
+  no_registration h = true -> refs_ok w c = true ->
+  fst (step (run h w) c) = fst (step w c).
+Proof.
+  intros h c w H K. apply verdict_ext; [apply run_same_tables; exact H | | exact K].
+  intros i o E. apply run_regs_kept. exact E.
+Qed.
+
+Definition is_effect (c : call) : bool := is_register c || is_new c.
+
+Lemma run_effects_only : forall h w, run h w = run (filter is_effect h) w.
+Proof.
+  induction h as [|c t IH]; intro w; [reflexivity|].
+  simpl filter. destruct (is_effect c) eqn:E.
+  - rewrite !run_cons. apply IH.
+  - rewrite run_cons, step_frozen; [apply IH|].
+    unfold is_effect in E. unfold is_plain. apply orb_false_iff in E. destruct E as [E1 E2].
+    rewrite E1, E2. reflexivity.
+Qed.
+
+Lemma run_frozen : forall h w, forallb is_plain h = true -> run h w = w.
+Proof.
+  intros h w H. rewrite run_effects_only.
+  assert (F : filter is_effect h = []).
+  { induction h as [|c t IH]; [reflexivity|]. simpl in *.
+    apply andb_true_iff in H. destruct H as [H1 H2].
+    unfold is_plain in H1. apply andb_true_iff in H1. destruct H1 as [A B].
+    unfold is_effect. destruct (is_register c); [discriminate|]. destruct (is_new c); [discriminate|].
+    simpl. apply IH. exact H2. }
+  rewrite F. reflexivity.
+Qed.
 
 Lemma history_registers : forall h c w,
-  step (run h w) c = step (run (filter is_register h) w) c.
-Proof. intros. rewrite run_registers_only. reflexivity. Qed.
+  step (run h w) c = step (run (filter is_effect h) w) c.
+Proof. intros. rewrite run_effects_only. reflexivity. Qed.
 
-Lemma verdicts_frozen : forall h w, forallb (fun c => negb (is_register c)) h = true ->
+Lemma verdicts_frozen : forall h w, forallb is_plain h = true ->
   verdicts h w = map (fun c => fst (step w c)) h.
 Proof.
   induction h as [|c t IH]; intros w H; [reflexivity|]. simpl in *.
   apply andb_true_iff in H. destruct H as [H1 H2].
-  rewrite step_frozen by (destruct (is_register c); [discriminate | reflexivity]).
-  rewrite IH by exact H2. reflexivity.
+  rewrite step_frozen by exact H1. rewrite IH by exact H2. reflexivity.
 Qed.
 
 (* ---------- finite facts about Gen.Tables ---------- *)
@@ -686,13 +804,42 @@ Lemma empty_list_strict_witness :
 Proof. split; [eexists; vm_compute; reflexivity | intros []]. Qed.
 
 Lemma history_full : forall h c w,
-  forallb (fun c => negb (is_register c)) h = true ->
-  run h w = w /\ step (run h w) c = step w c /\
-  verdicts h w = map (fun c => fst (step w c)) h.
+  no_registration h = true -> refs_ok w c = true ->
+  fst (step (run h w) c) = fst (step w c) /\
+  same_tables w (run h w) /\
+  (forall i o, nth_error (w_regs w) i = Some o -> nth_error (w_regs (run h w)) i = Some o).
+Proof.
+  intros h c w H K. split; [apply history_independent; assumption|].
+  split; [apply run_same_tables; exact H | intros i o E; apply run_regs_kept; exact E].
+Qed.
+
+Lemma history_plain : forall h c w,
+  forallb is_plain h = true ->
+  run h w = w /\ step (run h w) c = step w c /\ verdicts h w = map (fun c => fst (step w c)) h.
 Proof.
   intros h c w H. split; [apply run_frozen; exact H|].
-  split; [apply history_independent; exact H | apply verdicts_frozen; exact H].
+  split; [rewrite run_frozen by exact H; reflexivity | apply verdicts_frozen; exact H].
 Qed.
+
+Lemma registry_arg_unchanged :
+  (forall w c i o, nth_error (w_regs w) i = Some o -> nth_error (w_regs (snd (step w c))) i = Some o) /\
+  (forall h w i o, nth_error (w_regs w) i = Some o -> nth_error (w_regs (run h w)) i = Some o) /\
+  (forall w c, is_new c = false -> w_regs (snd (step w c)) = w_regs w).
+Proof. split; [exact step_regs_kept | split; [exact run_regs_kept | exact step_regs_plain]]. Qed.
+
+(* non-vacuity: a shared registry really decides the verdict of the calls that use it,
+   an `algorithms=` override of one JWE call does not stick to it *)
+Definition reg_a128 : regobj :=
+  {| ro_cls := RcJwe; ro_allowed := PList [pname "A128KW"; pname "A128GCM"]; ro_strict := true;
+     ro_verify_all := true; ro_extra_headers := [] |}.
+Lemma shared_registry_instance :
+  let h := [CallNewReg reg_a128;
+            CallJwe (PList [pname "A192KW"; pname "A128GCM"]) (RRef 0) (pname "A128GCM") [pname "A192KW"] None;
+            CallJwe PNone (RRef 0) (pname "A128GCM") [pname "A128KW"] None;
+            CallJwe PNone (RRef 0) (pname "A128GCM") [pname "A192KW"] None] in
+  verdicts h w0 = [VUnit (Ok tt); VUnit (Ok tt); VUnit (Ok tt); VUnit unsupported] /\
+  w_regs (run h w0) = [reg_a128].
+Proof. vm_compute. split; reflexivity. Qed.
 
 Lemma before_crypto :
   (forall X (crypto : list jws_alg_row -> res X) w k a r algs x,
